@@ -118,8 +118,10 @@ func (f *Frame) evalCall(call *ast.CallExpr, st *State) []Val {
 func (f *Frame) execCallStmt(call *ast.CallExpr, st *State, k func(*State, []Val)) []Outcome {
 	in := f.in
 	info := f.pkg.TypesInfo
+	staticOrd := f.staticCallOrd(call)
 	done := func(st *State, vs []Val) []Outcome {
 		k(st, vs)
+		f.runAsserts(staticOrd, st, call)
 		return normal(st)
 	}
 	// conversion T(x)
@@ -177,7 +179,10 @@ func (f *Frame) execCallStmt(call *ast.CallExpr, st *State, k func(*State, []Val
 	sig := fn.Type().(*types.Signature)
 	args := f.evalArgs(call, sig, st)
 	f.callN++
-	callOrd := f.callN
+	callOrd := staticOrd
+	if callOrd == 0 {
+		callOrd = 1000 + f.callN
+	}
 
 	// interface method call -> interface contract
 	if recvT != nil {
@@ -291,6 +296,10 @@ func (f *Frame) evalConversion(call *ast.CallExpr, to types.Type, st *State) Val
 			content := in.regionContent(st, sl.Reg, f)
 			if sl.Off.IsLit() && sl.Off.lit.Sign() == 0 {
 				return ArrV{T: content, N: at.Len()}
+			}
+			if in.sortOf(at.Elem()) == SInt {
+				// the array value is the slice content shifted to index 0 (indices >= len are junk in both)
+				return ArrV{T: App("ashift", ArrSort(SInt), content, sl.Off), N: at.Len()}
 			}
 			res := in.D.fresh("arrconv", ArrSort(in.sortOf(at.Elem())))
 			if at.Len() <= 96 {
@@ -959,4 +968,44 @@ func (in *Interp) ufRangeAxiom(name string, sorts []string, rt types.Type) {
 		return
 	}
 	in.D.declareOnce("ufrange:"+name, fmt.Sprintf("(assert %s)", Forall(vars, body, []Term{app}).S))
+}
+
+// staticCallOrd numbers the calls to declared functions/methods of the frame's
+// function in source order (pre-order of the AST), independent of the path taken.
+func (f *Frame) staticCallOrd(call *ast.CallExpr) int {
+	if f.callOrds == nil {
+		f.callOrds = map[*ast.CallExpr]int{}
+		var body ast.Node
+		if f.decl != nil && f.decl.Body != nil {
+			body = f.decl.Body
+		} else if f.lit != nil {
+			body = f.lit.Body
+		}
+		if body != nil {
+			n := 0
+			ast.Inspect(body, func(x ast.Node) bool {
+				if c, ok := x.(*ast.CallExpr); ok {
+					if fn := f.calleeOf(c); fn != nil && !isDroppedKey(funcKey(fn)) {
+						n++
+						f.callOrds[c] = n
+					}
+				}
+				return true
+			})
+		}
+	}
+	return f.callOrds[call]
+}
+
+// runAsserts proves and then assumes the `at call N assert` clauses of the contract.
+func (f *Frame) runAsserts(ord int, st *State, call *ast.CallExpr) {
+	if f.contract == nil || ord == 0 || st.dead {
+		return
+	}
+	for i, a := range f.contract.Asserts[ord] {
+		env := f.specEnvAt(st, call.End())
+		goal := env.evalBool(a.E)
+		f.oblige(st, "assert", fmt.Sprintf("%s#call%d.assert:%d", f.key, ord, i+1), call.Pos(), goal, a.Text)
+		st.assume(goal)
+	}
 }
